@@ -11,6 +11,7 @@
 //!   ["bind_udp", h, ip, port] | ["listen", h, ip, port] | ["connect", h, A] | ["poll", hd]
 //!   ["accept", hd] | ["close", hd] | ["udp_connect", hd, A] | ["send_to", hd, A, tag] | ["send", hd, tag]
 //!   ["raw_udp", A_src, A_dst, tag] | ["raw_tcp", kind, A_src, A_dst, tag]   kind: syn|synack|ack|data|rst
+//!   ["set_cursor", h, port] (verif hook: reposition the ephemeral allocator)
 //!   ["egress"] (packets are dropped) | ["pump"] (egress_all + deliver until quiet) | ["recv_all"]
 //! A = [ip, port] | {"of": hd} (local endpoint of handle hd) | {"peer_of": hd}
 //! Raw TCP segments get acceptable seq/ack numbers from the verif-hooks socket listing.
@@ -347,6 +348,11 @@ fn run_net(case: &Value) -> Value {
                 }
                 _ => json!({"r": "unresolved"}),
             },
+            "set_cursor" => {
+                let h = cmd[1].as_u64().unwrap() as usize;
+                turmoil_net::verif::set_port_cursor(w.hosts[h], cmd[2].as_u64().unwrap() as u16);
+                json!({"r": "ok", "cursor": turmoil_net::verif::port_cursor(w.hosts[h])})
+            }
             "egress" => {
                 let mut out = Vec::new();
                 guard.egress_all(&mut out);
@@ -418,14 +424,23 @@ fn run_net(case: &Value) -> Value {
     json!({"steps": steps, "counts": counts})
 }
 
-#[cfg(any())]
-fn run_alloc(_case: &Value) -> Value {
-    json!({})
+/// Unit-level: PortAllocator on a small range; every step lists the ports in use.
+fn run_alloc(case: &Value) -> Value {
+    let lo = case["cfg"]["lo"].as_u64().unwrap() as u16;
+    let hi = case["cfg"]["hi"].as_u64().unwrap() as u16;
+    let mut a = turmoil_net::verif::PortAllocator::new(lo..=hi);
+    let mut res = Vec::new();
+    for used in case["script"].as_array().unwrap() {
+        let used: Vec<u16> = used.as_array().unwrap().iter().map(|v| v.as_u64().unwrap() as u16).collect();
+        res.push(a.allocate(|p| used.contains(&p)).map(|p| p as u64).unwrap_or(0));
+    }
+    json!({"res": res})
 }
 
 fn main() {
     vharness::run_cases(|case| match case["mode"].as_str().unwrap() {
         "net" => run_net(case),
+        "alloc" => run_alloc(case),
         m => panic!("unknown mode {m}"),
     });
 }
